@@ -799,6 +799,11 @@ func (c *EvalCtx) call(e *ast.CallExpr) tv {
 			}
 			return tv{p.And(p.Not(p.Eq(x, p.Int(0))), p.Eq(ex.dynType(x), ex.typeID(t))), types.Typ[types.Bool]}
 		}
+		if gf, ok := ex.P.CS.GhostFields[id.Name]; ok && len(e.Args) == 1 {
+			x := c.asTerm(c.eval(e.Args[0]))
+			r := ex.getRegion(c.st, "gf:"+gf.Name, p.ArraySort(IntSort, ex.specSort(gf.Sort, c.pkgPath)))
+			return tv{p.Select(r, x), nil}
+		}
 		if sf, ok := ex.P.CS.Specs[id.Name]; ok {
 			var args []*Term
 			for _, a := range e.Args {
@@ -1175,6 +1180,11 @@ func (c *EvalCtx) modTargets(e ast.Expr) []modEntry {
 		return []modEntry{{name, c.asTerm(x)}}
 	case *ast.CallExpr:
 		if id, ok := e.Fun.(*ast.Ident); ok {
+			if gf, ok := ex.P.CS.GhostFields[id.Name]; ok && len(e.Args) == 1 {
+				x := c.asTerm(c.eval(e.Args[0]))
+				ex.getRegion(c.st, "gf:"+gf.Name, ex.p.ArraySort(IntSort, ex.specSort(gf.Sort, c.pkgPath)))
+				return []modEntry{{"gf:" + gf.Name, x}}
+			}
 			switch id.Name {
 			case "elems":
 				x := c.eval(e.Args[0])
